@@ -16,6 +16,16 @@ class Prog:
         self.spec, self.mat, self.data, self.col = spec, mat, data, col
         self.T = mat.root
         self._key = None
+        self.warmups = []
+
+    def warm(self, what):
+        """Routines of the *other* direction (or the codec) built before the calls under test: the order in which routines
+        for one type are first built is part of a program's history. Recorded in `case()` and redone on replay."""
+        f = {"marshaller": tl.marshaller, "unmarshaller": tl.unmarshaller, "codec": tl.codec}[what]
+        tl.call(f, self.T)
+        self.warmups.append(what)
+        if self.col is not None:
+            self.col.label("warm-up:" + what)
 
     @property
     def key(self):
@@ -26,6 +36,8 @@ class Prog:
     def case(self, **extra):
         """JSON-able replay description."""
         d = {"spec": self.spec, "root": self.mat.root_expr}
+        if self.warmups:
+            d["warm"] = list(self.warmups)
         for k, v in extra.items():
             d[k] = v
         return d
@@ -67,4 +79,6 @@ def replay_program(case, col, per_case):
     with mat:
         tl.clear_all()
         p = Prog(spec, mat, None, col)
+        for w in case.get("warm", ()):
+            p.warm(w)
         per_case(p)
